@@ -22,13 +22,13 @@ PROPS = {
     ),
     "C16": dict(
         components=["Weight", "StructuralCG", "StructWeightLoads", "FuelLoads", "FuelVolDelta", "PointMassLoads",
-                    "ThrustLoads", "TotalLoads"],
+                    "ThrustLoads", "TotalLoads", "WingboxFuelVol"],
         value_only=["FuelVolDelta"],   # its Jacobian belongs to C01 (known finding F10)
         assumptions=["element lengths are positive (non-degenerate beam mesh) and the fuel volumes do not sum to zero"],
     ),
     "C15": dict(
         components=["VonMisesTube", "VonMisesWingbox", "FailureKS", "FailureExact", "SectionPropertiesTube",
-                    "NonIntersectingThickness", "Energy"],
+                    "NonIntersectingThickness", "Energy", "SectionPropertiesWingbox", "SparWithinWing", "RadiusComp"],
         assumptions=["elements are not aligned with the global x axis (the local triad uses x as reference)",
                      "IEEE overflow is not modelled: the theorem shows every KS exponent is <= 0"],
     ),
@@ -49,6 +49,7 @@ PROPS = {
         components="ALL",
         history_components="ALL",
         jacobian_components="ALL_JAC",
+        extra_suites=[suites.implicit_suite],
         oracle_cases=dict(quick=2, thorough=10),
         assumptions=["non-degenerate meshes, positive section properties, subsonic Mach; generators keep a guard band around the documented "
                      "non-smooth points (wave-drag onset, the 1e-6 N zeroing threshold, zero rotation differences in the tube stress)",
@@ -60,34 +61,36 @@ PROPS = {
     ),
     "C03": dict(
         components=["MomentCoefficient", "VortexMesh", "ViscousDrag", "WaveDrag", "LoadTransfer", "Taper", "ScaleX", "Rotate", "Stretch",
-                    "StructWeightLoads", "Horseshoe", "VonMisesTube", "VLMGeometry"],
+                    "StructWeightLoads", "Horseshoe", "VonMisesTube", "VLMGeometry", "MtxRhs"],
+        extra_suites=[suites.implicit_suite],
         history_components="ALL",
         assumptions=["the framework protocol: compute(x) precedes compute_partials/linearize at x (OpenMDAO's run_model -> compute_totals)",
                      "the accumulation-site scan is syntactic (augmented assignments on partials/outputs/inputs/self and on local views of them)"],
     ),
     "C10": dict(
         components=["ComputeNodes", "Length", "Transform", "LocalStiff", "LocalStiffPermuted", "LocalStiffTransformed", "CreateRHS",
-                    "FEMSolve", "TotalLoads"],
-        extra_suites=[suites.beam_pipeline_suite],
+                    "FEMSolve", "TotalLoads", "Disp"],
+        extra_suites=[suites.beam_pipeline_suite, lambda st, tier: suites.implicit_suite(st, tier, names=("FEM",))],
         assumptions=["the sparse LU solver returns a solution of the system it is given (contract)",
                      "multi-element closed-form cantilever values and the tube rotation equivariance are evaluated on the real code by the oracle, not proved"],
     ),
     "C02": dict(
-        components=["FEMSolve", "LocalStiffTransformed", "Demux", "MuxForces", "VonMisesWingbox", "FuelLoads", "ConvertVelocity", "RotationalVelocity", "PanelForces"],
-        extra_suites=[suites.beam_pipeline_suite, suites.aero_pipeline_suite, suites.aerostruct_pipeline_suite],
+        components=["FEMSolve", "LocalStiffTransformed", "Demux", "MuxForces", "VonMisesWingbox", "FuelLoads", "ConvertVelocity", "RotationalVelocity", "PanelForces",
+                    "SectionPropertiesWingbox", "WingboxGeometry"],
+        extra_suites=[suites.beam_pipeline_suite, suites.aero_pipeline_suite, suites.aerostruct_pipeline_suite, suites.implicit_suite],
         oracle_cases=dict(quick=3, thorough=15),
         assumptions=["OpenMDAO's assembly of total derivatives and the convergence of its iterative linear solvers are trusted, not modelled",
                      "component partials are covered by C01"],
     ),
     "C12": dict(
-        components=["LoadTransfer", "DisplacementTransfer", "TransformationMatrix", "FEMSolve"],
+        components=["LoadTransfer", "DisplacementTransfer", "TransformationMatrix", "FEMSolve", "MultiCD"],
         extra_suites=[suites.beam_pipeline_suite, suites.aero_pipeline_suite, suites.aerostruct_pipeline_suite],
         oracle_cases=dict(quick=3, thorough=15),
         assumptions=["convergence of OpenMDAO's nonlinear solvers is runtime behaviour; uniqueness of the consistent state is a hypothesis",
                      "the rigid limit needs bounded aerodynamic loads (hypothesis)"],
     ),
     "C14": dict(
-        components=["ScaleX"],
+        components=["ScaleX", "GeomMultiUnification", "GeomMultiJoin"],
         history_components=[],
         extra_suites=[suites.meshgen_suite],
         assumptions=["blends in [0,1] (the undocumented span_cos_spacing == 2 branch is not modelled)",
@@ -101,13 +104,14 @@ PROPS = {
         assumptions=["finiteness, repeatability and non-mutation of user arrays are runtime/aliasing behaviour: monitored by the oracle, not proved"],
     ),
     "C05": dict(
-        components=["CollocationPoints", "VortexMesh", "EvalVelMtx", "Horseshoe", "VLMGeometry"],
-        extra_suites=[suites.aero_pipeline_suite],
+        components=["CollocationPoints", "VortexMesh", "EvalVelMtx", "Horseshoe", "VLMGeometry", "GetVectors", "MtxRhs", "EvalVelocities",
+                    "PanelForcesSurf"],
+        extra_suites=[suites.aero_pipeline_suite, lambda st, tier: suites.implicit_suite(st, tier, names=("SolveMatrix",))],
         assumptions=["the linear solver returns a solution of the system it is given (scipy LU; contract, not modelled)",
                      "the line-integral origin of the closed-form kernel is not formalised, only its equality with the Biot-Savart closed form"],
     ),
     "C04": dict(
-        components=["VortexMesh", "EvalVelMtx", "LiftDrag", "VLMGeometry", "ViscousDrag", "WaveDrag", "MomentCoefficient", "Weight", "StructuralCG"],
+        components=["VortexMesh", "EvalVelMtx", "LiftDrag", "VLMGeometry", "ViscousDrag", "WaveDrag", "MomentCoefficient", "Weight", "StructuralCG", "GetVectors"],
         extra_suites=[suites.aero_pipeline_suite],
         assumptions=["mirror-symmetric configuration with the root edge on y = 0, zero sideslip and no roll/yaw rate",
                      "structural half/full equivalence is examined by the oracle only"],
@@ -118,12 +122,12 @@ PROPS = {
         assumptions=["length scaling requires that the |den| > 1e-10 branch of the kernel is the same in both configurations (known finding F9)"],
     ),
     "C07": dict(
-        components=["VortexMesh", "EvalVelMtx", "Taper", "Sweep", "Dihedral", "VonMisesWingbox", "VonMisesTube", "PointMassLoads", "ThrustLoads"],
+        components=["VortexMesh", "EvalVelMtx", "Taper", "Sweep", "Dihedral", "VonMisesWingbox", "VonMisesTube", "PointMassLoads", "ThrustLoads", "Monotonic"],
         extra_suites=[suites.aero_pipeline_suite],
         assumptions=["aerodynamic mirror equivariance is proved for full-span surfaces without ground effect; structural mirror equivariance and the coefficient functionals are examined by the oracle only"],
     ),
     "C08": dict(
-        components=["VortexMesh", "EvalVelMtx"],
+        components=["VortexMesh", "EvalVelMtx", "GetVectors"],
         extra_suites=[suites.aero_pipeline_suite],
         assumptions=["the far-field limit is examined numerically (h = 1e6 chords) by the oracle, not proved"],
     ),
@@ -135,7 +139,7 @@ PROPS = {
                      "incompressible solver)", "continuity of the linear solve in its data is assumed"],
     ),
     "C19": dict(
-        components=["Demux", "MuxForces", "Horseshoe", "CollocationPoints"],
+        components=["Demux", "MuxForces", "Horseshoe", "CollocationPoints", "MtxRhs", "EvalVelocities", "PanelForcesSurf", "GeomMultiUnification"],
         extra_suites=[suites.aero_pipeline_suite],
         assumptions=["order-independence is proved for the assembled system (matrix, rhs, solutions, panel forces); the coefficient functionals downstream and the splitting of a surface into abutting surfaces are examined by the oracle", "mphys wrapper groups are compared by the oracle when mphys is importable"],
     ),
